@@ -906,6 +906,10 @@ class ChannelStats:
             - "basic" : Compute the moments upto 2nd order (variance).
             - "full" : Compute the moments upto 4th order (kurtosis).
         """
+        if array.dtype == np.float64:
+            # Moments are carried in single precision between chunks: samples must
+            # enter at that precision too, or a later chunk sees a shifted mean.
+            array = array.astype(np.float32)
         if mode == "basic":
             kernels.compute_online_moments_basic(
                 array,
